@@ -51,6 +51,9 @@ POLARS_CAVEATS[("nunique", "n_unique")] = ("Expr.n_unique() counts null as one m
 POLARS_CAVEATS[("first", "first")] = ("Expr.first() is the value of the first row, null included; Pandas' groupby first (project and transform) is the first "
                                       "non-missing value (g: x=[None, 1] gives null on Polars, 1 on Pandas)")
 POLARS_CAVEATS[("last", "last")] = ("Expr.last() is the value of the last row, null included; Pandas' groupby last is the last non-missing value")
+POLARS_CAVEATS[("as_str", "cast")] = ("Expr.cast(String) spells a Boolean 'true' / 'false' and a float in its shortest form with a bare exponent ('1e-7'); Pandas' astype(str) "
+                                      "gives 'True' / 'False' and '1e-07' — b.as_str() == 'True' keeps 2 rows on Pandas and none on Polars, and text built from numbers differs as a "
+                                      "group or join key")
 POLARS_UNSIGNED_RESULTS = {"n_unique"}
 CAVEAT_LIFTED_BY = {("nunique", "n_unique"): "drop_nulls", ("first", "first"): "drop_nulls", ("last", "last"): "drop_nulls"}
 KEYWORD_CONSTRAINTS = {("bfill", "fill_null"): ("strategy", "backward"), ("ffill", "fill_null"): ("strategy", "forward")}
@@ -573,6 +576,24 @@ def _s7_sibling_returns(program, res):
         raise AnalysisError(f"C03-S7: only {n} sibling methods with a value-returning Pandas reference found")
 
 
+def nan_is_missing_rule(program, res, rule="C03-S3"):
+    """Pandas has one missing marker for numbers (NaN): a NaN computed inside a pipeline (0/0, inf - inf) *is* missing for every later step, and SQLite
+    stores it as NULL.  Polars keeps NaN and null apart, and only its `count` / `cumcount` / `is_bad` entries test both.  The executors agree on later steps
+    only if the Polars executor turns a computed NaN into null (fill_nan(None)) where it computes columns"""
+    mod = program.module("polars_model")
+    src_calls = [c for c in ast.walk(mod.tree) if isinstance(c, ast.Call) and isinstance(c.func, ast.Attribute) and c.func.attr == "fill_nan"]
+    tests_nan = [c for c in ast.walk(mod.tree) if isinstance(c, ast.Call) and isinstance(c.func, ast.Attribute) and c.func.attr == "is_nan"]
+    if src_calls:
+        res.ok(rule, f"Polars: computed NaN is normalised ({len(src_calls)} fill_nan call(s))")
+    elif tests_nan:
+        res.fail(rule, "polars_model:PolarsModel._extend_step", "polars-nan-is-not-missing",
+                 f"the Polars executor never turns a computed NaN into null (no fill_nan), although {len(tests_nan)} of its entries (count, cumcount, is_bad) already treat NaN as "
+                 f"missing: q = x / y with 0/0 is missing on Pandas and SQLite for every later step — q.is_null() False, q.coalesce(0) keeps NaN, q > 0 keeps the row, "
+                 f"q.sum() by group is NaN, order_rows(q, reverse, limit) ranks it first on Polars", "data_algebra/polars_model.py", 0)
+    else:
+        res.ok(rule, "Polars: no entry treats NaN as missing (NaN and null are kept apart throughout)")
+
+
 def empty_frame_types_rule(program, res, rule="C03-S8", methods=None):
     """a zero-row result built as DataFrame({name: [] for name in ...}) has no column types: Pandas makes every column float64, Polars Null.
     The next step that meets a populated table (join keys, concat, fill of shared columns) then raises on the mismatch although no row is
@@ -613,6 +634,7 @@ def empty_frame_types_rule(program, res, rule="C03-S8", methods=None):
 
 
 def run(program, res, tier):
+    nan_is_missing_rule(program, res)
     res.rule("C03-S8", "zero-row results keep the column types of their inputs")
     empty_frame_types_rule(program, res)
     res.rule("C03-S1", "every node kind has a Polars step that refuses other kinds")
